@@ -22,6 +22,10 @@ pub enum Key {
 
 /// Must only be called if terminal is NOT in raw mode.
 pub fn enable_raw_mode() {
+    #[cfg(lace_verif)]
+    if crate::verif::keys_scripted() {
+        return;
+    }
     debug_assert!(
         !terminal::is_raw_mode_enabled().is_ok_and(|is| is),
         "terminal should not be in raw mode to enable raw mode",
@@ -31,6 +35,10 @@ pub fn enable_raw_mode() {
 
 /// Must only be called if terminal is in raw mode.
 pub fn disable_raw_mode() {
+    #[cfg(lace_verif)]
+    if crate::verif::keys_scripted() {
+        return;
+    }
     debug_assert!(
         terminal::is_raw_mode_enabled().is_ok_and(|is| is),
         "terminal should already be in raw mode to disable raw mode",
@@ -46,6 +54,10 @@ pub fn disable_raw_mode() {
 ///
 /// `Ctrl+C` will always return the terminal to normal state and exit.
 pub fn read_key() -> Key {
+    #[cfg(lace_verif)]
+    if crate::verif::keys_scripted() {
+        return crate::verif::next_key();
+    }
     assert!(
         terminal::is_raw_mode_enabled().is_ok_and(|is| is),
         "terminal must be in raw mode to read key",
